@@ -191,7 +191,7 @@ macro_rules! get_long_oid {
         }
     };
 }
-//@ C17,C03,C15 quick timeout=900 | GetNext PDU with one OID of 127 content octets (largest short-form length): every nesting level's header == reference encoding
+//@ C17,C03,C15 quick | GetNext PDU with one OID of 127 content octets (largest short-form length): every nesting level's header == reference encoding
 get_long_oid!(get_long_oid_127, 127);
-//@ C17,C03,C15 quick timeout=900 | GetNext PDU with one OID of 128 content octets (first long-form length 81 80): every nesting level's header == reference encoding
+//@ C17,C03,C15 quick | GetNext PDU with one OID of 128 content octets (first long-form length 81 80): every nesting level's header == reference encoding
 get_long_oid!(get_long_oid_128, 128);
